@@ -233,7 +233,10 @@ def run(ctx):
         "the library lifts (catalogue by introspection, incl. IFERROR/IFNA/IFS inside an array-formula context) "
         "with equally shaped arrays at every subset of its lifted argument positions, differing elements and "
         "errors away from the top left, at library level and as real CSE formulas over the arguments' shape, "
-        "two other targets and one cell; every cell "
+        "two other targets and one cell (every fifth workbook on a sheet whose name needs quotes); end-to-end "
+        "variants: an operand as an array constant at the start / end / both / middle (parentheses, function "
+        "argument) of the array formula's text, and worksheets named with apostrophes, spaces, address-like or "
+        "operator-character names (member cells compile =index('<name>'!range,i,j)); every cell "
         "of every end-to-end target against the member-cell model; ranges around two adjacent array formulas "
         "(same text, extended text, other text; horizontal or vertical; reference sizes up to 3x3); "
         "distinct = distinct (call, shapes, values)")
@@ -639,6 +642,7 @@ def lifted_e2e(ctx, fixup):
         return repr(v)
     ctx_target = AddressRange('A1:D4')
     shapes = [s for s in SHAPES if s != (1, 1)]
+    nplan = 0
     for name, f0, meta, how in lifted_catalog():
         if (meta and meta.get('ref_params') is not None) or name == 'indirect':
             continue            # reference arguments / results: C16's subject
@@ -662,6 +666,11 @@ def lifted_e2e(ctx, fixup):
             sh = ctx.rng.choice(shapes)
             wb = Workbook()
             ws = wb.active
+            # one workbook in five: the worksheet under a name that needs quotes (apostrophes, spaces, operators)
+            nplan += 1
+            title = ctx.rng.choice(SHEET_TITLES[ctx.rng.choice([0, 1, 1, 2, 3])]) if nplan % 5 == 0 else 'Sheet'
+            ws.title = title
+            qt = qsheet(title)
 
             def put(vals, c0):
                 for i, row in enumerate(vals):
@@ -724,16 +733,18 @@ def lifted_e2e(ctx, fixup):
                 for h, w, r0, c0, ref in targets:
                     case = dict(call='array-formula', args=cargs, arrays=list(sub), lifted=how, formula=formula,
                                 target=ref, target_shape=[h, w])
+                    if title != 'Sheet':
+                        case['sheet'] = title
                     want = fit_statement(point, h, w)
-                    got = run_impl(comp.evaluate, f'Sheet!{ref}')
-                    ctx.count(('e2e-lifted', formula, repr(args), ref), kind=f'e2e-lifted:{how}',
-                              sample=dict(case, impl=got))
+                    got = run_impl(comp.evaluate, f'{qt}!{ref}')
+                    ctx.count(('e2e-lifted', formula, repr(args), ref), kind=f'e2e-lifted:{how}'
+                              + (':quoted-sheet' if title != 'Sheet' else ''), sample=dict(case, impl=got))
                     if got != ('ok', canon(squeeze(want))):
                         ctx.violation(case, "array formula over the target range is not the fitted pointwise result",
                                       impl=got, expected=squeeze(want))
                         continue
                     for i, j in itertools.product(range(h), range(w)):
-                        member = f'Sheet!{col(c0 + j)}{r0 + i}'
+                        member = f'{qt}!{col(c0 + j)}{r0 + i}'
                         gm = run_impl(comp.evaluate, member)
                         ctx.count(('e2e-lifted-member', formula, repr(args), ref, i, j), kind='e2e-lifted:member')
                         wm = canon(want[i][j])
@@ -761,6 +772,25 @@ def col(n):
     return get_column_letter(n)
 
 
+# sheet names that need quotes in an address (cf. harness/props/c05.py _stream_cse_sheets): with spaces, with
+# apostrophes (doubled inside the quotes), reading as a cell address / number / boolean, with operator characters.
+# (a '$' in a sheet name is C05's known finding C05-cse-sheet-name-dollar: not repeated here)
+SHEET_TITLES = [
+    ['My Data', 'Sheet 1', '2024 Q1', '数据 表', ' lead', 'trail ', 'a  b', 'TRUE FALSE'],
+    ["Q1 '24", "Demande d'autorisation", "it's", "it's here", "a ' b", "a''b", "x'", "l'été 2024"],
+    ['A1', '2024', 'R1C1', 'TRUE', 'XFD1048576', 'a.b', 'Übersicht'],
+    ['x-y', 'a,b', 'Tab(1)', '#REF', 'a&b', 'p=q', 'c{1}', '50%'],
+]
+
+
+def qsheet(title):
+    """the sheet name as written in an address handed to evaluate"""
+    import re
+    if re.fullmatch(r'[A-Za-z_][A-Za-z0-9_]*', title) and title not in ('A1', 'R1C1', 'TRUE', 'FALSE', 'XFD1048576'):
+        return title
+    return "'" + title.replace("'", "''") + "'"
+
+
 def end_to_end(ctx, fixup, FUNCS):
     from openpyxl import Workbook
     from openpyxl.worksheet.formula import ArrayFormula
@@ -784,21 +814,63 @@ def end_to_end(ctx, fixup, FUNCS):
     for name in ('mod', 'left', 'round_', 'if_'):
         for sh in ctx.rng.sample(SHAPES, ctx.n(4, 16)):
             plans.append((name, sh, ctx.rng.choice([None, sh])))
+    # ---- variants (one workbook each, the operands' own shape and five other targets): an operand written as an
+    #      ARRAY CONSTANT {..;..} — first operand (the formula text begins with the constant's brace), second (it ends
+    #      with it), both, and with the whole expression in parentheses / inside a function call (constant in the
+    #      middle of the text); the worksheet under a name that needs quotes (member cells are =index('<name>'!ref,i,j))
+    arrays = [s for s in SHAPES if s != (1, 1)]
+    for k in range(ctx.n(40, 200)):
+        where = ('a', 'b', 'ab', 'b', 'a')[k % 5]
+        sc = ctx.rng.choice(arrays)
+        other = ctx.rng.choice([s for s in shapes if bshape(sc, s) is not None and (where != 'ab' or s in arrays)])
+        sa, sb = (sc, other) if where != 'b' else (other, sc)
+        plans.append(('op', sa, sb, dict(const=where, paren=k % 4 == 3)))
+    for name in ('mod', 'left', 'round_', 'if_'):
+        for _ in range(ctx.n(2, 8)):
+            sh = ctx.rng.choice(arrays)
+            plans.append((name, sh, ctx.rng.choice([None, sh, sh]), dict(const=ctx.rng.choice(['a', 'b', 'ab']))))
+    for k in range(ctx.n(36, 180)):
+        title = ctx.rng.choice(SHEET_TITLES[k % 4 if k % 8 < 4 else 1])
+        sa = ctx.rng.choice(arrays)
+        if k % 5 == 4:
+            plans.append((ctx.rng.choice(['mod', 'left', 'round_', 'if_']), sa, ctx.rng.choice([None, sa]),
+                          dict(title=title, const=ctx.rng.choice(['', '', 'b']))))
+            continue
+        sb = ctx.rng.choice([s for s in shapes if bshape(sa, s) is not None])
+        if ctx.rng.random() < 0.3:
+            sa, sb = sb, sa
+        plans.append(('op', sa, sb, dict(title=title, const=ctx.rng.choice(['', '', '', 'a', 'b']),
+                                         paren=ctx.rng.random() < 0.15)))
     model_calls, checks = [], []
     cell_calls, sheet_calls = [], []
     for plan in plans:
-        kind, sa, sb = plan
-        for rep in range(ctx.n(2, 6)):
+        kind, sa, sb = plan[:3]
+        var = plan[3] if len(plan) > 3 else {}
+        title = var.get('title', 'Sheet')
+        q = qsheet(title)
+        for rep in range(ctx.n(2, 6) if not var else 1):
             wb = Workbook()
             ws = wb.active
+            ws.title = title
 
-            def place(shape, c0, numeric=False):
-                """Write an operand at rows 1..4 from column c0; returns (value, formula text)."""
+            def place(shape, c0, numeric=False, const=False):
+                """Write an operand at rows 1..4 from column c0; returns (value, formula text).  const: an array
+                operand is not written into cells but into the formula text as an array constant (no blanks)."""
                 if shape is None:
                     v = cell_value(ctx)
                     while v is None or (numeric and not isinstance(v, (int, float))):
                         v = cell_value(ctx)
                     return v, literal(v)
+                if const and shape != (1, 1):
+                    vals = []
+                    for _ in range(shape[0]):
+                        row = []
+                        while len(row) < shape[1]:
+                            v = cell_value(ctx)
+                            if v is not None:
+                                row.append(v)
+                        vals.append(tuple(row))
+                    return tuple(vals), '{' + ';'.join(','.join(literal(v) for v in row) for row in vals) + '}'
                 vals = tuple(tuple(cell_value(ctx) for _ in range(shape[1])) for _ in range(shape[0]))
                 for i, row in enumerate(vals):
                     for j, v in enumerate(row):
@@ -807,11 +879,11 @@ def end_to_end(ctx, fixup, FUNCS):
                 if shape == (1, 1):
                     return vals[0][0], f'{col(c0)}1'        # a one-cell reference is a scalar operand
                 return vals, f'{col(c0)}1:{col(c0 + shape[1] - 1)}{shape[0]}'
-            a, ta = place(sa, 1)
-            b, tb = place(sb, 6)
+            a, ta = place(sa, 1, const='a' in var.get('const', ''))
+            b, tb = place(sb, 6, const='b' in var.get('const', ''))
             if kind == 'op':
                 o = ctx.rng.choice([x for x in OPS if x not in ('USub', 'Pow')])
-                formula = f'={ta}{OP_TEXT[o]}{tb}'
+                formula = f'=({ta}{OP_TEXT[o]}{tb})' if var.get('paren') else f'={ta}{OP_TEXT[o]}{tb}'
                 args = [a, o, b]
 
                 def scalar(r, c):
@@ -843,7 +915,7 @@ def end_to_end(ctx, fixup, FUNCS):
                 raw_whole, whole_ok = None, False
             point = tuple(tuple(x[1] for x in row) for row in point)
             targets = {}
-            for (h, w) in SHAPES:
+            for (h, w) in (SHAPES if not var else sorted(set(ctx.rng.sample(SHAPES, 5) + [sh]))):
                 r0, c0 = 10 + 5 * (h - 1), 1 + 5 * (w - 1)
                 ref = f'{col(c0)}{r0}:{col(c0 + w - 1)}{r0 + h - 1}'
                 ws.cell(row=r0, column=c0, value=ArrayFormula(ref, formula))
@@ -851,16 +923,23 @@ def end_to_end(ctx, fixup, FUNCS):
             try:
                 comp = ExcelCompiler(excel=wb)
             except Exception as exc:      # noqa: BLE001
-                ctx.violation(dict(call='array-formula', args=args, formula=formula),
+                ctx.violation(dict(call='array-formula', args=args, formula=formula, sheet=title),
                               f"workbook with array formulas does not compile: {type(exc).__name__}")
                 continue
-            sheet_sample = set(ctx.rng.sample(sorted(targets), ctx.n(2, 6)))
+            sheet_sample = set(ctx.rng.sample(sorted(targets), min(len(targets), ctx.n(2, 6))))
+            if var:
+                ctx.histogram['e2e-variant:' + ('array-constant' if '{' in formula else 'ranges')
+                              + (':quoted-sheet' if 'title' in var else '')] = ctx.histogram.get(
+                    'e2e-variant:' + ('array-constant' if '{' in formula else 'ranges')
+                    + (':quoted-sheet' if 'title' in var else ''), 0) + 1
             for (h, w), (r0, c0, ref) in targets.items():
                 case = dict(call='array-formula', args=args, formula=formula, target=ref)
+                if 'title' in var:
+                    case['sheet'] = title
                 want = fit_statement(point, h, w)
-                got = run_impl(comp.evaluate, f'Sheet!{ref}')
+                got = run_impl(comp.evaluate, f'{q}!{ref}')
                 # ---- the member-cell model, value side: every cell of the target
-                cells = [[run_impl(comp.evaluate, f'Sheet!{col(c0 + j)}{r0 + i}') for j in range(w)]
+                cells = [[run_impl(comp.evaluate, f'{q}!{col(c0 + j)}{r0 + i}') for j in range(w)]
                          for i in range(h)]
                 if whole_ok:
                     bad = [x for row in cells for x in row if x[0] != 'ok']
@@ -869,8 +948,8 @@ def end_to_end(ctx, fixup, FUNCS):
                                             result=canon(raw_whole)), raw_whole, h, w, im_cells))
                 # ---- … sheet side: the numbers / range written into the member cells
                 if (h, w) in sheet_sample and (h, w) != (1, 1):
-                    sheet_calls.append((dict(call='load-members', args=[r0, c0, h, w], target=ref),
-                                        (r0, c0, h, w), run_impl(sheet_side, comp, r0, c0, h, w)))
+                    sheet_calls.append((dict(call='load-members', args=[r0, c0, h, w], target=ref, sheet=title),
+                                        (r0, c0, h, w), run_impl(sheet_side, comp, r0, c0, h, w, title)))
                 ctx.count(('e2e', formula, repr(a), repr(b), ref), kind=f'e2e:{kind}',
                           sample=dict(case, impl=got))
                 if got != ('ok', canon(squeeze(want))):
@@ -882,7 +961,7 @@ def end_to_end(ctx, fixup, FUNCS):
                     checks.append((case, got))
                 # each member cell shows its own element (every member of the target)
                 for i, j in itertools.product(range(h), range(w)):
-                    member = f'Sheet!{col(c0 + j)}{r0 + i}'
+                    member = f'{q}!{col(c0 + j)}{r0 + i}'
                     gm = cells[i][j]
                     ctx.count(('e2e-member', formula, repr(a), repr(b), ref, i, j), kind='e2e:member')
                     wm = canon(want[i][j])
@@ -1102,18 +1181,18 @@ def range_formulas(ctx, fixup):
                                              'evaluate(range) for any range around the array formulas')
 
 
-def sheet_side(comp, r0, c0, h, w):
+def sheet_side(comp, r0, c0, h, w, title='Sheet'):
     """What load_array_formulas wrote into the cells of the reference range and what cell_to_formula
     makes of it: (row, col, i, j, height, width, start_col, start_row, end_col, end_row) per member."""
     from pycel.excelutil import AddressRange
-    ws = comp.excel.workbook['Sheet']
+    ws = comp.excel.workbook[title]
     out = []
     for row in range(r0, r0 + h):
         for cl in range(c0, c0 + w):
             text = ws.cell(row=row, column=cl).value
             assert text.startswith('=CSE_INDEX(') and text.endswith(')'), text
             i, j, hh, ww = (int(x) for x in text[:-1].rsplit(',', 4)[1:])
-            f = comp.excel.get_formula_or_value(f'Sheet!{col(cl)}{row}')
+            f = comp.excel.get_formula_or_value(f'{qsheet(title)}!{col(cl)}{row}')
             assert f.startswith('=index(') and f.endswith(')'), f
             rng, fi, fj = f[len('=index('):-1].rsplit(',', 2)
             assert (int(fi), int(fj)) == (i, j), f
